@@ -263,6 +263,18 @@ func runEncoding(e *Enc, fn *ssa.Function, props []string) {
 			reach = and(reach, t)
 		}
 	}
+	if sp != nil && f.depth == 0 {
+		for _, lm := range sp.Lemmas {
+			env := entryEnv(st, st)
+			t, err := env.evalBool(lm.Expr)
+			if err != nil {
+				e.specError("%s: lemma %q: %v", e.Key, lm.Text, err)
+				continue
+			}
+			reach = and(reach, t)
+			e.usedAssumes[e.Key+": lemma "+lm.Text] = true
+		}
+	}
 	reach = e.define("r.entry", reach)
 	// vacuity: the precondition is satisfiable
 	if sp != nil && len(sp.Requires) > 0 {
